@@ -258,7 +258,7 @@ Qed.
 Definition clean (l : str) : Prop := mem 10 l = false /\ mem 13 l = false.
 Lemma strip_cr_clean l : mem 13 l = false -> strip_cr l = l.
 Proof.
-  intros H. unfold strip_cr. destruct (List.rev l) as [|c r] eqn:E; auto.
+  intros H. unfold strip_cr. rewrite frev_eq. destruct (List.rev l) as [|c r] eqn:E; auto.
   destruct (N.eqb_spec c 13) as [->|N].
   - exfalso. assert (In 13 l) as Hin by (apply in_rev; rewrite E; left; reflexivity).
     apply mem_In in Hin. congruence.
